@@ -113,6 +113,9 @@ def main(argv=None):
     jobs = m.jobs(a.tier)
     if a.only:
         jobs = [j for j in jobs if a.only in j[0]]
+    if not jobs:
+        print("%s: no job matches --only %r (harness error)" % (a.prop, a.only))
+        return 2
     rnd = random.Random(seed)
     rnd.shuffle(jobs)
     results = []
